@@ -262,9 +262,31 @@ def run(R):
         R.count("batch_size:%s" % bs)
         R.count("joint-batch-with-relative-baseline-unequal-between-receptors:%s" % bool(nb_ >= 2 and len(set(relb.tolist())) > 1))
         R.count("joint-batch-with-unequal-bounds:%s" % bool(nb_ >= 2 and (len(set(S["lb"].tolist())) > 1 or len(set(S["ub"].tolist())) > 1)))
-        stg, og = call(lsq_linear, g["A"], g["B"], lb=g["lb"], ub=g["ub"], W=g["W"], K=g["K"], baseline=g["baseline"], return_pred=True, solver="CLARABEL", **bkw)
-        stp, op_ = call(lsq_linear, g["A"], g["B"], lb=g["lb"], ub=g["ub"], W=g["W"], K=g["K"], baseline=g["baseline"], model="poisson", return_pred=True, solver="CLARABEL", **bkw)
-        ste, oe = call(lsq_linear_excitation, g["A"], g["B"], lb=g["lb"], ub=g["ub"], W=None, K=g["K"], baseline=g["baseline"], return_pred=True, **bkw)
+        # route: the function API, or (the property's observation point) ReceptorEstimator.fit(B, model=...) on a system registered with
+        # an exactly reproduced capture matrix: filters [0 | A | 0], unit sources, unit-step domain. Per-receptor weights go in as the
+        # constructor's `w`; per-sample / 'inverse' weights exist only in the function API.
+        via_est = wk in ("none", "vector") and (si % 2 == 1 or bool(R.rng(7, si).integers(3) == 0))
+        R.count("via:" + ("estimator" if via_est else "function"))
+        c["via"] = "estimator" if via_est else "function"
+        if via_est:
+            import dreye
+            A_ = np.asarray(S["A"], dtype=float); nfe, nse = A_.shape
+            filt_ = np.hstack([np.zeros((nfe, 1)), A_, np.zeros((nfe, 1))]); src_ = np.hstack([np.zeros((nse, 1)), np.eye(nse), np.zeros((nse, 1))])
+
+            def mk_est(w_):
+                kw_ = {} if w_ is None else dict(w=w_)
+                e_ = dreye.ReceptorEstimator(filt_, domain=1.0, K=(1.0 if S["K"] is None else g["K"]), baseline=g["baseline"], sources=src_, lb=g["lb"], ub=g["ub"], **kw_)
+                if not np.array_equal(np.asarray(e_.A, dtype=float), A_):
+                    R.failA(dict(k=k), "harness: the estimator's capture matrix is not the intended A")
+                return e_
+            est_w = mk_est(None if wk == "none" else g["W"]); est_1 = mk_est(None)
+            stg, og = call(est_w.fit, g["B"], solver="CLARABEL", **bkw)
+            stp, op_ = call(est_w.fit, g["B"], model="poisson", solver="CLARABEL", **bkw)
+            ste, oe = call(est_1.fit, g["B"], model="excitation", **bkw)
+        else:
+            stg, og = call(lsq_linear, g["A"], g["B"], lb=g["lb"], ub=g["ub"], W=g["W"], K=g["K"], baseline=g["baseline"], return_pred=True, solver="CLARABEL", **bkw)
+            stp, op_ = call(lsq_linear, g["A"], g["B"], lb=g["lb"], ub=g["ub"], W=g["W"], K=g["K"], baseline=g["baseline"], model="poisson", return_pred=True, solver="CLARABEL", **bkw)
+            ste, oe = call(lsq_linear_excitation, g["A"], g["B"], lb=g["lb"], ub=g["ub"], W=None, K=g["K"], baseline=g["baseline"], return_pred=True, **bkw)
         Ap, bp = S["Ap"], S["bp"]
         wv = WR      # (rows x receptors: the weights of each target)
         # excitation with channel weights: a sub-batch (one inside, the boundary and one outside target)
